@@ -575,7 +575,7 @@ def pair_up(alns):
 # ----------------------------------------------------------------------------
 # free-form random alignments (code -> spec direction)
 # ----------------------------------------------------------------------------
-def random_alignment(rng, geom, qname, rg, length=(12, 40), flag_probs=None, mapqs=(0, 5, 19, 20, 21, 30, 60),
+def random_alignment(rng, geom, qname, rg, length=(12, 40), flag_probs=None, mapqs=(0, 5, 19, 20, 21, 30, 60, 254, 255),
                      wrong_md_prob=0.0, min_qual=30, max_qual=40, snp_bases=None):
     """A random alignment on geom.contig: random start, random CIGAR over M/I/D/N/=/X with
     optional S/H clips, sequence = reference with mutations, flags drawn independently.
